@@ -78,7 +78,7 @@ def run(ck, P):
         peek = [(n_, d) for (n_, d) in srcs if strip(d.rhs).get("callee") == "m_stack_peek" and S(strip(d.rhs)["args"][0]) == "mod->recvs"]
         fall = [(n_, d) for (n_, d) in srcs if S(d.rhs) == "mod->hook.on_evt"]
         ok = len(srcs) == 2 and len(peek) == 1 and len(fall) == 1 and cb.ev_dominates(peek[0][1], uc) \
-            and has(X.facts(cb, fall[0][1]), fall[0][0], False) and S(uc.args[0]) == "mod"
+            and any(has(X.facts(cb, fall[0][1]), nm__, False) for nm__ in sorted(seen_names) + [S(peek[0][1].rhs)]) and S(uc.args[0]) == "mod"
         later = [e for e in cb.calls("m_stack_peek") if cb.ev_dominates(uc, e)]
         ok = ok and not later
         det = "handler = %s, fallback %s under !%s, invoked with (%s, %s)" % ([S(d.rhs) for (_n, d) in peek], [S(d.rhs) for (_n, d) in fall],
